@@ -37,7 +37,7 @@ Extras(v) ==
     [] v = 3 -> << X("pf", "blob", "c65536", 65536, "null", "path"), X("xl", "link", "t2", 2, "oid", "mem"),
                    X("pe", "blob", "c0", 0, "null", "path") >>
     [] v = 4 -> << X("p1", "blob", "c65535", 65535, "oid", "path"), X("p2", "exe", "c70000", 70000, "null", "path"),
-                   X("f", "blob", "c3", 3, "null", "mem"), X("xs", "commit", "", 0, "null", "null") >>
+                   X("f2", "blob", "c3", 3, "null", "mem"), X("xs", "commit", "", 0, "null", "null") >>
     [] OTHER -> <<>>
 Prefix(v) == IF v \in {2, 4} THEN "pre/" ELSE ""
 
